@@ -299,6 +299,31 @@ def f_set(xs, ys):
     return len(s), len(t), n, (3 in s) != (3 in t)
 
 
+def f_ext(a, b, c):
+    import math
+    lo = -float("inf") if a < 0 else a
+    hi = float("inf") if b > 3 else b
+    prods = (lo * c, lo * hi, hi * c, c * b)
+    m, M = min(prods), max(prods)
+    s = lo + hi
+    d = lo - hi
+    flags = (m == -float("inf"), M == float("inf"), math.isnan(m), math.isnan(M), math.isnan(s), math.isnan(d), lo < hi, m <= M, s == d)
+    fin = 0
+    if not math.isnan(m) and m != -float("inf") and m != float("inf"):
+        fin = m
+    return flags, fin
+
+
+def f_ext2(a, b):
+    import math
+    x = float("inf") if a > 1 else a
+    y = -float("inf") if b < -1 else b
+    t = (y * x, x * 0, y * a, x + y, b * a)
+    r = max(t)
+    q = min(t)
+    return (math.isnan(r), math.isnan(q), r == float("inf"), q == -float("inf"), isinstance(r, int), isinstance(q, float), x > y, x >= y, x != y)
+
+
 def f_while(n):
     i, acc = 0, 0
     while i < n:
@@ -400,6 +425,8 @@ def engine():
             "f_none": lambda: (rng.randint(0, 5),),
             "f_sym1": lambda: (rng.randint(-3, 3), rng.randint(-3, 3), rng.randint(-3, 3)),
             "f_sym2": lambda: (rng.randint(-1, 4), rng.randint(-3, 3)),
+            "f_ext": lambda: (rng.randint(-2, 3), rng.randint(0, 6), rng.randint(-2, 2)),
+            "f_ext2": lambda: (rng.randint(-2, 3), rng.randint(-3, 2)),
         }
         bad = total = unsupported = abstracted = 0
         for name, gen in cases.items():
@@ -436,7 +463,7 @@ def engine():
         #      path must be consistent with the input and its symbolic result must evaluate to CPython's result
         import z3
         from pyvc.values import Int as PInt
-        sym_cases = {"f_arith": 2, "f_sym1": 3, "f_sym2": 2, "f_exc": 2, "f_none": 1}
+        sym_cases = {"f_arith": 2, "f_sym1": 3, "f_sym2": 2, "f_exc": 2, "f_none": 1, "f_ext": 3, "f_ext2": 2}
         sbad = stotal = 0
         for name, arity in sym_cases.items():
             fn = getattr(mod, name)
@@ -490,6 +517,25 @@ def _lower_model(st, v, m):
         return [_lower_model(st, x, m) for x in v.items]
     if isinstance(v, tuple):
         return tuple(_lower_model(st, x, m) for x in v)
+    from pyvc.extnum import SExt
+    if isinstance(v, SExt):
+        k = m.eval(v.k, model_completion=True).as_long()
+        if k == 2:
+            return float("-inf")
+        if k == 3:
+            return float("inf")
+        if k == 4:
+            return "nan"
+        val = m.eval(v.v, model_completion=True)
+        from fractions import Fraction
+        fr = Fraction(val.numerator_as_long(), val.denominator_as_long())
+        return int(fr) if k == 0 else fr
+    from pyvc.values import SUnion
+    if isinstance(v, SUnion):
+        for g, alt in v.alts:           # guarded alternatives: the one whose guard holds in the model
+            if z3.is_true(m.eval(g, model_completion=True)):
+                return _lower_model(st, alt, m)
+        return ("symbolic", "no alternative of a union holds")
     if hasattr(v, "z"):
         z = m.eval(v.z, model_completion=True)
         if z3.is_true(z) or z3.is_false(z):
